@@ -45,8 +45,9 @@ def run(tier):
     # every block read (n 0..4) and every iteration range with six callback scripts; every edge replayed
     vf.graph_flow(v, 'RegTableMC.tla', 'RegTableMC3.cfg', 'regtab', 'rtmc3', depth=3, budget=20000 if quick else 600000,
                   walks=100, walklen=2, nontrivial=lambda u, evl, post: evl.startswith(('bread', 'foreach')), heap='16g')
-    rnd = random.Random(vf.seed())
-    ss = list(scripts(rnd, 36 if quick else 200, [U16, U32, U64, F32, S16] if quick else list(range(8))))
+    ss = []
+    for rnd in vf.rounds(tier, 4):
+        ss += list(scripts(rnd, 36 if quick else 200, [U16, U32, U64, F32, S16] if quick else list(range(8))))
     vf.trace_flow(v, 'RegTableTrace.tla', 'RegTableTrace.cfg', 'regtab', ss, 'br')
     v.cov['distinct_nontrivial'] += len(set((i, l) for i, s in enumerate(ss) for l in s if l.startswith(('bread', 'foreach'))))
     v.notes['tables'] = len(ss)
